@@ -323,8 +323,10 @@ def update (st : OState) (v : OpView) (c : Ctx) : OState :=
   | "flush", [f] =>
     match c.fh with
     | some fs =>
+      -- after a successful flush nothing is pending in the handle any more
       if c.ok && (fs.setC.isSome || fs.setM.isSome || fs.setA.isSome) then
-        updFile (addExpect st fs) f fun s => { s with setC := none, setM := none, setA := none }
+        updFile (addExpect st fs) f fun s => { s with setC := none, setM := none, setA := none, mutated := false }
+      else if c.ok then updFile st f fun s => { s with mutated := false }
       else st
     | none => st
   | "remove", _ =>
